@@ -10,7 +10,7 @@ import (
 // written from the property statement. Fields are tri-state where the
 // statement does not define the outcome.
 type Shareability struct {
-	Forbidden bool  // some condition that forbids storing certainly holds
+	Forbidden bool // some condition that forbids storing certainly holds
 	Why       string
 	Defined   bool  // lifetime is well-defined (all numbers well-formed and in range)
 	Lifetime  int64 // valid when Defined && !Forbidden
